@@ -76,6 +76,19 @@ CLAIMED["C17"] = (
     "DESIGN.md 3/C17",
 )
 
+CLAIMED["C06"] = (
+    "differential runtime monitor: random scenes (CSG with free variables, random expressions, bundled models) x image sizes x tile-size lists x affine views x z x pixel-perfect x backend x thread pools; rendered pixels compared with Context::eval at the documented sample position; interval-fill depth read from the image as coverage evidence; witness shrinking",
+    "Held on every render/pixel observed (millions of pixels per quick run; share of renders mixing interval fills and evaluated pixels and with fills at >= 2 depths in evidence). Exploration.",
+    "Pixels within the zero band 1e-5*max(1,|p|) or with NaN value are not judged in non-pixel-perfect mode; random expressions exclude rand/mix; up to 700 pixels sampled per image.",
+    "DESIGN.md 3/C06",
+)
+CLAIMED["C13"] = (
+    "runtime monitor: random remap_xyz / remap_affine sequences (nested, mixed, shared sub-trees under several frames, free variables) built through the builder API and recorded as a private spec DAG; Context::eval(import(tree)) compared with two independent substitution evaluators (recorded calls, public TreeOp); exact regime on dyadic rationals with zero tolerance (certified), general regime with 64*eps*T",
+    "Held on every tree/point observed (60% of cases in the certified exact regime). Exploration.",
+    "Samples near discontinuities / domain edges or with non-finite intermediates skipped and counted; hand-built RemapAffine{RemapAffine} nests are outside the property.",
+    "DESIGN.md 3/C13",
+)
+
 NOT_YET = {}
 
 def main():
